@@ -707,7 +707,7 @@ def run(ctx: Ctx) -> int:
     rng = random.Random(ctx.seed)
     docstates = ["absent", "nodoc", "doc"] if ctx.quick else ["absent", "nodoc", "doc", "empty"]
     results: Dict[str, Any] = {}
-    threads = [threading.Thread(target=tlc_cases, args=(ctx, "enum", 5, docstates, results), kwargs={"coverage": ctx.quick}),
+    threads = [threading.Thread(target=tlc_cases, args=(ctx, "enum", 5, docstates, results), kwargs={"coverage": bool(os.environ.get("VERIF_COVERAGE"))}),
                threading.Thread(target=tlc_cases, args=(ctx, "members", 4, docstates, results)),
                threading.Thread(target=tlc_cases, args=(ctx, "graph", 3, docstates, results), kwargs={"workers": 1}),
                threading.Thread(target=tlc_cases, args=(ctx, "late", 3, docstates, results), kwargs={"workers": 2}),
